@@ -12,6 +12,9 @@ def run(ctx, res):
     parsercheck.apply(ctx, res, ["C0", "E2."], strict_only=False, lenient_only=True, relative=True)
     flow(ctx, res)
     defaults(ctx, res)
+    from . import C01
+    res.rules_run.append("C12.entry (every `_with` entry point hands its options unchanged to the parser and feeds it the whole input through one character source whatever the flags are: the flags change nothing outside the string scanner)")
+    C01.entry_rule(ctx, res, rule="C12.entry")
 
 
 def flow(ctx, res):
